@@ -1061,13 +1061,20 @@ def push_thread_bindings(m: IPersistentMap[Var, Any]) -> None:
     """Push thread local bindings for the Var keys in m using the values."""
     bindings = set()
 
-    for var, val in m.items():
-        if not var.dynamic:
-            raise RuntimeException(
-                "cannot set thread-local bindings for non-dynamic Var"
-            )
-        var.push_bindings(val)
-        bindings.add(var)
+    try:
+        for var, val in m.items():
+            if not var.dynamic:
+                raise RuntimeException(
+                    "cannot set thread-local bindings for non-dynamic Var"
+                )
+            var.push_bindings(val)
+            bindings.add(var)
+    except Exception:
+        # No frame has been recorded for the Vars bound so far, so nothing would
+        # ever pop them: undo them before reporting the failure.
+        for var in bindings:
+            var.pop_bindings()
+        raise
 
     _THREAD_BINDINGS.push_bindings(lset.set(bindings))
 
@@ -2442,8 +2449,8 @@ def bindings(bindings: Mapping[Var, Any] | None = None):
     logger.debug(
         f"Binding thread-local values for Vars: {', '.join(map(str, m.keys()))}"
     )
+    push_thread_bindings(m)
     try:
-        push_thread_bindings(m)
         yield
     finally:
         pop_thread_bindings()
